@@ -107,6 +107,10 @@ fn build_ctx<S: Sch>(rec: &mut Rec) -> Option<Ctx<S>> {
     qs.insert(("p0".into(), ("a".into(), z1.clone())));
     qs.insert(("p1".into(), ("a".into(), z1.clone())));
     qs.insert(("p0".into(), ("c".into(), z2.clone())));
+    // a second label for the same point and the same set of polynomials: its group must be verified
+    // (and move the verifier's sponge) like any other
+    qs.insert(("p0".into(), ("b".into(), z1.clone())));
+    qs.insert(("p1".into(), ("b".into(), z1.clone())));
     let evals = true_evals::<S>(&c, &qs);
     // lc0 = 2*p0 + 3 (unbounded terms only), lc1 = 1*p1 (a lone, possibly degree-bounded polynomial)
     let two = S::F::from(2u64);
@@ -117,6 +121,7 @@ fn build_ctx<S: Sch>(rec: &mut Rec) -> Option<Ctx<S>> {
     let mut lc_qs = QuerySet::<S::Pt>::new();
     lc_qs.insert(("lc0".into(), ("a".into(), z1.clone())));
     lc_qs.insert(("lc1".into(), ("c".into(), z2.clone())));
+    lc_qs.insert(("lc0".into(), ("b".into(), z1.clone())));
     let mut lc_evals = Evaluations::new();
     lc_evals.insert(("lc0".to_string(), z1.clone()), two * c.polys[0].polynomial().evaluate(&z1) + three);
     lc_evals.insert(("lc1".to_string(), z2.clone()), c.polys[1].polynomial().evaluate(&z2));
